@@ -12,6 +12,8 @@ package main
 
 import (
 	"fmt"
+	"os"
+	"go/token"
 	"go/types"
 	"sort"
 	"strings"
@@ -27,7 +29,158 @@ type frameSweep struct {
 	taintFree   map[*ssa.Function]map[int]bool
 	initReach   map[*ssa.Function]bool
 	valTaint    map[ssa.Value]bool
+	fieldTaint  map[*types.Var]bool
+	escParam    map[*ssa.Function]map[int]bool
+	escRet      map[*ssa.Function]bool
 	changed     bool
+}
+
+// fieldOf returns the struct field addressed by a FieldAddr / read by a Field.
+func structFieldOf(t types.Type, i int) *types.Var {
+	if p, ok := t.Underlying().(*types.Pointer); ok {
+		t = p.Elem()
+	}
+	if st, ok := t.Underlying().(*types.Struct); ok && i < st.NumFields() {
+		return st.Field(i)
+	}
+	return nil
+}
+
+// directGlobal: v is the address of (part of) a package-level variable's own
+// storage, derived without any load: &g, &g.f, &g[i], g[:].
+func directGlobal(v ssa.Value, depth int) bool {
+	if depth > 8 {
+		return false
+	}
+	switch x := v.(type) {
+	case *ssa.Global:
+		return true
+	case *ssa.FieldAddr:
+		return directGlobal(x.X, depth+1)
+	case *ssa.IndexAddr:
+		return directGlobal(x.X, depth+1)
+	case *ssa.Slice:
+		return directGlobal(x.X, depth+1)
+	case *ssa.ChangeType:
+		return directGlobal(x.X, depth+1)
+	case *ssa.Convert:
+		return directGlobal(x.X, depth+1)
+	}
+	return false
+}
+
+// ptrToStruct: fields of type *T (T a struct) name a specific object the
+// instance works with (a registry, a cache); a global-rooted pointer kept in
+// such a field makes every load of the field global-rooted.  Interface, func
+// and unsafe.Pointer fields are left out: in this code base they carry
+// stateless package-level singletons through generic stacks, and tainting them
+// field-insensitively floods every store through the stacks with alarms.
+func ptrToStruct(t types.Type) bool {
+	if p, ok := t.Underlying().(*types.Pointer); ok {
+		_, ok := p.Elem().Underlying().(*types.Struct)
+		return ok
+	}
+	return false
+}
+
+func (fs *frameSweep) escapeClosure(v ssa.Value, depth int) {
+	if depth > 8 {
+		return
+	}
+	switch x := v.(type) {
+	case *ssa.MakeClosure:
+		if cf, ok := x.Fn.(*ssa.Function); ok {
+			for i := range x.Bindings {
+				if fs.taintFree[cf] == nil {
+					fs.taintFree[cf] = map[int]bool{}
+				}
+				if !fs.taintFree[cf][i] {
+					fs.taintFree[cf][i] = true
+					fs.changed = true
+				}
+			}
+		}
+	case *ssa.Call:
+		if callee := x.Common().StaticCallee(); callee != nil && callee.Blocks != nil && !fs.escRet[callee] {
+			fs.escRet[callee] = true
+			fs.changed = true
+		}
+	case *ssa.Extract:
+		fs.escapeClosure(x.Tuple, depth+1)
+	case *ssa.MakeInterface:
+		fs.escapeClosure(x.X, depth+1)
+	case *ssa.ChangeType:
+		fs.escapeClosure(x.X, depth+1)
+	case *ssa.Phi:
+		for _, e := range x.Edges {
+			fs.escapeClosure(e, depth+1)
+		}
+	}
+}
+
+// markEscape: v is stored into global-rooted memory, so whatever it points to
+// is shared from now on (flow-insensitively: for the whole function).
+func (fs *frameSweep) markEscape(v ssa.Value, depth int) {
+	if depth > 8 || !pointerLike(v.Type()) {
+		return
+	}
+	if c, ok := v.(*ssa.Const); ok && c.IsNil() {
+		return
+	}
+	switch x := v.(type) {
+	case *ssa.Global, *ssa.Function, *ssa.Const:
+		return
+	case *ssa.Parameter:
+		fn := x.Parent()
+		for i, p := range fn.Params {
+			if p == x {
+				if fs.escParam[fn] == nil {
+					fs.escParam[fn] = map[int]bool{}
+				}
+				if !fs.escParam[fn][i] {
+					fs.escParam[fn][i] = true
+					fs.changed = true
+				}
+			}
+		}
+	case *ssa.MakeClosure:
+		if cf, ok := x.Fn.(*ssa.Function); ok {
+			for i, bnd := range x.Bindings {
+				if fs.taintFree[cf] == nil {
+					fs.taintFree[cf] = map[int]bool{}
+				}
+				if !fs.taintFree[cf][i] {
+					fs.taintFree[cf][i] = true
+					fs.changed = true
+				}
+				fs.markEscape(bnd, depth+1)
+			}
+		}
+	case *ssa.Call:
+		for _, callee := range []*ssa.Function{x.Common().StaticCallee()} {
+			if callee != nil && callee.Blocks != nil && !fs.escRet[callee] {
+				fs.escRet[callee] = true
+				fs.changed = true
+			}
+		}
+	case *ssa.Extract:
+		fs.markEscape(x.Tuple, depth+1)
+	case *ssa.MakeInterface:
+		fs.markEscape(x.X, depth+1)
+	case *ssa.ChangeType:
+		fs.markEscape(x.X, depth+1)
+	case *ssa.ChangeInterface:
+		fs.markEscape(x.X, depth+1)
+	case *ssa.Convert:
+		fs.markEscape(x.X, depth+1)
+	case *ssa.Slice:
+		fs.markEscape(x.X, depth+1)
+	case *ssa.Phi:
+		for _, e := range x.Edges {
+			fs.markEscape(e, depth+1)
+		}
+	}
+	fs.setVal(v, true)
 }
 
 func pointerLike(t types.Type) bool {
@@ -93,6 +246,37 @@ func (fs *frameSweep) flow(fn *ssa.Function) {
 				fs.setVal(x, fs.tainted(x.X))
 			case *ssa.Field:
 				fs.setVal(x, fs.tainted(x.X) && pointerLike(x.Type()))
+				if f := structFieldOf(x.X.Type(), x.Field); f != nil && fs.fieldTaint[f] {
+					fs.setVal(x, pointerLike(x.Type()))
+				}
+			case *ssa.Store:
+				if pointerLike(x.Val.Type()) && (directGlobal(x.Val, 0) || (fs.tainted(x.Val) && ptrToStruct(x.Val.Type()))) {
+					// a global-rooted value kept in a field: every load of that
+					// field (of any instance) may be global-rooted
+					if fa, ok := x.Addr.(*ssa.FieldAddr); ok {
+						if f := structFieldOf(fa.X.Type(), fa.Field); f != nil && !fs.fieldTaint[f] {
+							fs.fieldTaint[f] = true
+							fs.changed = true
+							if os.Getenv("GOVC_DEBUG") != "" {
+								fmt.Fprintf(os.Stderr, "fieldtaint %s.%s in %s: %s\n", fa.X.Type(), f.Name(), fn, fs.eng.sourceAt(x))
+							}
+						}
+					}
+				}
+				if fs.tainted(x.Addr) {
+					if os.Getenv("GOVC_DEBUG") != "" && pointerLike(x.Val.Type()) && !fs.valTaint[x.Val] {
+						fmt.Fprintf(os.Stderr, "escape-store in %s: %s\n", fn, fs.eng.sourceAt(x))
+					}
+					fs.markEscape(x.Val, 0)
+				}
+			case *ssa.MapUpdate:
+				if fs.tainted(x.Map) {
+					if os.Getenv("GOVC_DEBUG") != "" && pointerLike(x.Value.Type()) && !fs.valTaint[x.Value] {
+						fmt.Fprintf(os.Stderr, "escape-mapupdate in %s: %s\n", fn, fs.eng.sourceAt(x))
+					}
+					fs.markEscape(x.Value, 0)
+					fs.markEscape(x.Key, 0)
+				}
 			case *ssa.Index:
 				fs.setVal(x, fs.tainted(x.X) && pointerLike(x.Type()))
 			case *ssa.Lookup:
@@ -100,6 +284,11 @@ func (fs *frameSweep) flow(fn *ssa.Function) {
 			case *ssa.UnOp:
 				// a pointer-like value loaded from global-rooted memory is global-rooted
 				fs.setVal(x, fs.tainted(x.X) && pointerLike(x.Type()))
+				if fa, ok := x.X.(*ssa.FieldAddr); ok && x.Op == token.MUL {
+					if f := structFieldOf(fa.X.Type(), fa.Field); f != nil && fs.fieldTaint[f] {
+						fs.setVal(x, pointerLike(x.Type()))
+					}
+				}
 			case *ssa.Slice:
 				fs.setVal(x, fs.tainted(x.X))
 			case *ssa.Phi:
@@ -135,6 +324,15 @@ func (fs *frameSweep) flow(fn *ssa.Function) {
 			case *ssa.Call:
 				fs.flowCall(fn, x)
 			case *ssa.Return:
+				if fs.escRet[fn] {
+					// the result of some call of fn is published in global
+					// memory.  fn's allocations are fresh per call, so only
+					// the variables captured by a returned closure are marked
+					// (closure code cannot tell its instances apart).
+					for _, r := range x.Results {
+						fs.escapeClosure(r, 0)
+					}
+				}
 				for _, r := range x.Results {
 					if fs.tainted(r) && !fs.taintRet[fn] {
 						fs.taintRet[fn] = true
@@ -199,6 +397,12 @@ func (fs *frameSweep) flowCall(fn *ssa.Function, x *ssa.Call) {
 			if fs.tainted(a) {
 				fs.markParam(callee, i+off)
 			}
+			if fs.escParam[callee][i+off] {
+				fs.markEscape(a, 0)
+			}
+		}
+		if c.IsInvoke() && fs.escParam[callee][0] {
+			fs.markEscape(c.Value, 0)
 		}
 		if fs.taintRet[callee] {
 			fs.setVal(x, pointerLike(x.Type()))
@@ -252,7 +456,8 @@ type frameOblig struct {
 
 func (eng *Engine) runFrameSweep() []frameOblig {
 	fs := &frameSweep{eng: eng, taintParam: map[*ssa.Function]map[int]bool{}, taintRet: map[*ssa.Function]bool{},
-		taintFree: map[*ssa.Function]map[int]bool{}, valTaint: map[ssa.Value]bool{}, initReach: map[*ssa.Function]bool{}}
+		taintFree: map[*ssa.Function]map[int]bool{}, valTaint: map[ssa.Value]bool{}, initReach: map[*ssa.Function]bool{},
+		fieldTaint: map[*types.Var]bool{}, escParam: map[*ssa.Function]map[int]bool{}, escRet: map[*ssa.Function]bool{}}
 	for fn := range eng.allFuncs {
 		if fn.Blocks == nil || !strings.HasPrefix(eng.pkgPathOf(fn), eng.modPath) {
 			continue
